@@ -2,7 +2,34 @@
 
 package readahead
 
-// Contracts for govc (see /verif/DESIGN.md). Comment-only file.
+// Contracts for govc (see /verif/DESIGN.md, C04). Comment-only file.
+//
+// Ghost state of an io.Reader r:  rd(r) the bytes it has delivered so far, rd_len(r) how many,
+// rd_closed(r): it has returned an error (io.EOF or other) and must not be read again.
+
+//@ ghost rd(iface) bytes
+//@ ghost rd_len(iface) int
+//@ ghost rd_closed(iface) bool
+//@ ghost rd_failed(iface) bool
+//@ ghost err_reports(func) int
+
+//@ iface io.Reader.Read
+//@   params (this, p)
+//@   results (n, err)
+//@   requires !rd_closed(this)
+//@   requires [progress] len(p) >= 1
+//@   modifies p[..], ghost rd(this), ghost rd_len(this), ghost rd_closed(this), ghost rd_failed(this)
+//@   ensures 0 <= n && n <= len(p)
+//@   ensures rd_len(this) == old(rd_len(this)) + n
+//@   ensures forall i in [0, old(rd_len(this))) :: rd(this)[i] == old(rd(this))[i]
+//@   ensures forall i in [0, n) :: p[i] == rd(this)[old(rd_len(this)) + i]
+//@   ensures rd_closed(this) == (err != nil)
+//@   ensures rd_failed(this) == (err != nil && err != io.EOF)
+
+//@ functype rare/pkg/readahead.OnScannerError
+//@   params (this, e)
+//@   modifies ghost err_reports(this)
+//@   ensures err_reports(this) == old(err_reports(this)) + 1
 
 //@ func dropCR
 //@   pure
@@ -13,3 +40,109 @@ package readahead
 //@ func maxi
 //@   pure
 //@   ensures result >= a && result >= b && (result == a || result == b)
+
+// consumed(s): number of stream bytes already handed out as lines (with their terminators)
+//@ pred consumed(s) := rd_len(s.r) - (s.end - s.offset)
+
+// wf: the window buf[offset:end] is exactly the unconsumed tail of what the reader delivered
+//@ pred wf(s) := 0 <= s.offset && s.offset <= s.end && s.end <= len(s.buf) && s.bufSize >= 1 && s.bufSize <= 1099511627776 && s.delim == '\n'
+//@      && s.r != nil && rd_len(s.r) >= s.end - s.offset && s.eof == rd_closed(s.r)
+//@      && (forall i in [s.offset, s.end) :: s.buf[i] == rd(s.r)[rd_len(s.r) - s.end + i])
+
+//@ func NewImmediate
+//@   requires bufSize >= 1 && bufSize <= 1099511627776 && reader != nil && !rd_closed(reader) && rd_len(reader) == 0
+//@   ensures wf(result) && consumed(result) == 0
+
+//@ func (*ImmediateReadAhead).Scan
+//@   results (ok)
+//@   requires wf(s)
+//@   requires s.onError != nil ==> err_reports(s.onError) >= 0
+//@   ensures wf(s)
+//@   ensures rd_len(s.r) >= old(rd_len(s.r))
+//@   ensures forall i in [0, old(rd_len(s.r))) :: rd(s.r)[i] == old(rd(s.r))[i]
+//@   ensures [line-start] ok ==> old(consumed(s)) < rd_len(s.r)
+//@   ensures [line-terminated] ok && first_byte(rd(s.r), old(consumed(s)), rd_len(s.r), '\n') >= 0 ==>
+//@              consumed(s) == first_byte(rd(s.r), old(consumed(s)), rd_len(s.r), '\n') + 1
+//@   ensures [line-terminated-len] ok && first_byte(rd(s.r), old(consumed(s)), rd_len(s.r), '\n') >= 0 ==>
+//@              len(s.token) == first_byte(rd(s.r), old(consumed(s)), rd_len(s.r), '\n') - old(consumed(s))
+//@                 - (if first_byte(rd(s.r), old(consumed(s)), rd_len(s.r), '\n') > old(consumed(s)) && rd(s.r)[first_byte(rd(s.r), old(consumed(s)), rd_len(s.r), '\n') - 1] == '\r' then 1 else 0)
+//@   ensures [line-tail] ok && first_byte(rd(s.r), old(consumed(s)), rd_len(s.r), '\n') < 0 ==>
+//@              s.eof && consumed(s) == rd_len(s.r) && len(s.token) == rd_len(s.r) - old(consumed(s))
+//@   ensures [line-bytes] ok ==> forall i in [0, len(s.token)) :: s.token[i] == rd(s.r)[old(consumed(s)) + i]
+//@   ensures [end] !ok ==> s.eof && consumed(s) == rd_len(s.r) && old(consumed(s)) == rd_len(s.r)
+//@   ensures [token-in-window] ok ==> ref(s.token) == ref(s.buf) && off(s.token) + len(s.token) <= off(s.buf) + s.offset
+//@   ensures [error-once] s.onError != nil ==> err_reports(s.onError) <= old(err_reports(s.onError)) + 1
+//@   ensures [error-ends] s.onError != nil && err_reports(s.onError) > old(err_reports(s.onError)) ==> s.eof && !old(s.eof) && rd_failed(s.r)
+//@   ensures [error-reported] s.onError != nil && !old(s.eof) && s.eof && rd_failed(s.r) ==> err_reports(s.onError) == old(err_reports(s.onError)) + 1
+//@   ensures [stable] forall a: int :: forall i: int :: allocated_at_entry(a) && !(a == old(ref(s.buf)) && i >= old(off(s.buf) + s.offset)) ==> byteat(a, i) == old(byteat(a, i))
+//@   loop 1 invariant wf(s) && consumed(s) == old(consumed(s)) && rd_len(s.r) >= old(rd_len(s.r))
+//@   loop 1 invariant forall i in [0, old(rd_len(s.r))) :: rd(s.r)[i] == old(rd(s.r))[i]
+//@   loop 1 invariant s.onError == old(s.onError) && s.r == old(s.r) && (old(s.eof) ==> s.eof)
+//@   loop 1 invariant s.onError != nil ==> err_reports(s.onError) <= old(err_reports(s.onError)) + 1 && err_reports(s.onError) >= old(err_reports(s.onError))
+//@   loop 1 invariant s.onError != nil && err_reports(s.onError) > old(err_reports(s.onError)) ==> s.eof && !old(s.eof) && rd_failed(s.r)
+//@   loop 1 invariant s.onError != nil && !old(s.eof) && s.eof && rd_failed(s.r) ==> err_reports(s.onError) == old(err_reports(s.onError)) + 1
+//@   loop 1 invariant forall a: int :: forall i: int :: allocated_at_entry(a) && !(a == old(ref(s.buf)) && i >= old(off(s.buf) + s.offset)) ==> byteat(a, i) == old(byteat(a, i))
+//@   loop 1 invariant ref(s.buf) == old(ref(s.buf)) ==> off(s.buf) == old(off(s.buf)) && s.offset >= old(s.offset)
+//@   loop 1 invariant ref(s.buf) != old(ref(s.buf)) ==> !allocated_at_entry(ref(s.buf))
+//@   loop 1 invariant !s.eof ==> (s.onError != nil ==> err_reports(s.onError) == old(err_reports(s.onError)))
+//@   loop 2 invariant wf(s) && consumed(s) == old(consumed(s)) && rd_len(s.r) >= old(rd_len(s.r)) && !s.eof
+//@   loop 2 invariant forall i in [0, old(rd_len(s.r))) :: rd(s.r)[i] == old(rd(s.r))[i]
+//@   loop 2 invariant forall i in [s.offset, s.end) :: s.buf[i] != '\n'
+//@   loop 2 invariant s.onError == old(s.onError) && s.r == old(s.r) && !old(s.eof)
+//@   loop 2 invariant s.onError != nil ==> err_reports(s.onError) == old(err_reports(s.onError))
+//@   loop 2 invariant forall a: int :: forall i: int :: allocated_at_entry(a) && !(a == old(ref(s.buf)) && i >= old(off(s.buf) + s.offset)) ==> byteat(a, i) == old(byteat(a, i))
+//@   loop 2 invariant ref(s.buf) == old(ref(s.buf)) ==> off(s.buf) == old(off(s.buf)) && s.offset >= old(s.offset)
+//@   loop 2 invariant ref(s.buf) != old(ref(s.buf)) ==> !allocated_at_entry(ref(s.buf))
+
+// ---- BufferedReadAhead ----
+
+//@ functype func(error)
+//@   params (this, e)
+//@   modifies ghost err_reports(this)
+//@   ensures err_reports(this) == old(err_reports(this)) + 1
+
+//@ pred consumed_b(s) := rd_len(s.r) - (len(s.buf) - s.offset)
+
+//@ pred wf_b(s) := 0 <= s.offset && s.offset <= len(s.buf) && s.maxBufLen > 1 && s.maxBufLen <= 1099511627776 && s.delim == '\n'
+//@      && s.r != nil && rd_len(s.r) >= len(s.buf) - s.offset && s.eof == rd_closed(s.r)
+//@      && (forall i in [s.offset, len(s.buf)) :: s.buf[i] == rd(s.r)[rd_len(s.r) - len(s.buf) + i])
+
+//@ func (*BufferedReadAhead).Scan
+//@   results (ok)
+//@   requires wf_b(s)
+//@   requires s.onError != nil ==> err_reports(s.onError) >= 0
+//@   ensures wf_b(s)
+//@   ensures rd_len(s.r) >= old(rd_len(s.r))
+//@   ensures forall i in [0, old(rd_len(s.r))) :: rd(s.r)[i] == old(rd(s.r))[i]
+//@   ensures [line-start] ok ==> old(consumed_b(s)) < rd_len(s.r)
+//@   ensures [line-terminated] ok && first_byte(rd(s.r), old(consumed_b(s)), rd_len(s.r), '\n') >= 0 ==>
+//@              consumed_b(s) == first_byte(rd(s.r), old(consumed_b(s)), rd_len(s.r), '\n') + 1
+//@   ensures [line-terminated-len] ok && first_byte(rd(s.r), old(consumed_b(s)), rd_len(s.r), '\n') >= 0 ==>
+//@              len(s.token) == first_byte(rd(s.r), old(consumed_b(s)), rd_len(s.r), '\n') - old(consumed_b(s))
+//@                 - (if first_byte(rd(s.r), old(consumed_b(s)), rd_len(s.r), '\n') > old(consumed_b(s)) && rd(s.r)[first_byte(rd(s.r), old(consumed_b(s)), rd_len(s.r), '\n') - 1] == '\r' then 1 else 0)
+//@   ensures [line-tail] ok && first_byte(rd(s.r), old(consumed_b(s)), rd_len(s.r), '\n') < 0 ==>
+//@              s.eof && consumed_b(s) == rd_len(s.r) && len(s.token) == rd_len(s.r) - old(consumed_b(s))
+//@   ensures [line-bytes] ok ==> forall i in [0, len(s.token)) :: s.token[i] == rd(s.r)[old(consumed_b(s)) + i]
+//@   ensures [end] !ok ==> s.eof && consumed_b(s) == rd_len(s.r) && old(consumed_b(s)) == rd_len(s.r) && s.token == nil
+//@   ensures [token-in-window] ok ==> ref(s.token) == ref(s.buf) && off(s.token) + len(s.token) <= off(s.buf) + s.offset
+//@   ensures [error-once] s.onError != nil ==> err_reports(s.onError) <= old(err_reports(s.onError)) + 1
+//@   ensures [error-ends] s.onError != nil && err_reports(s.onError) > old(err_reports(s.onError)) ==> s.eof && !old(s.eof) && rd_failed(s.r)
+//@   ensures [error-reported] s.onError != nil && !old(s.eof) && s.eof && rd_failed(s.r) ==> err_reports(s.onError) == old(err_reports(s.onError)) + 1
+//@   ensures [stable] forall a: int :: forall i: int :: allocated_at_entry(a) ==> byteat(a, i) == old(byteat(a, i))
+//@   loop 1 invariant wf_b(s) && consumed_b(s) == old(consumed_b(s)) && rd_len(s.r) >= old(rd_len(s.r))
+//@   loop 1 invariant forall i in [0, old(rd_len(s.r))) :: rd(s.r)[i] == old(rd(s.r))[i]
+//@   loop 1 invariant s.onError == old(s.onError) && s.r == old(s.r) && (old(s.eof) ==> s.eof)
+//@   loop 1 invariant s.onError != nil ==> err_reports(s.onError) <= old(err_reports(s.onError)) + 1 && err_reports(s.onError) >= old(err_reports(s.onError))
+//@   loop 1 invariant s.onError != nil && err_reports(s.onError) > old(err_reports(s.onError)) ==> s.eof && !old(s.eof) && rd_failed(s.r)
+//@   loop 1 invariant s.onError != nil && !old(s.eof) && s.eof && rd_failed(s.r) ==> err_reports(s.onError) == old(err_reports(s.onError)) + 1
+//@   loop 1 invariant !s.eof ==> (s.onError != nil ==> err_reports(s.onError) == old(err_reports(s.onError)))
+//@   loop 1 invariant forall a: int :: forall i: int :: allocated_at_entry(a) ==> byteat(a, i) == old(byteat(a, i))
+//@   loop 2 invariant 0 <= readOffset && readOffset <= len(s.buf) && !s.eof && !rd_closed(s.r) && !old(s.eof)
+//@   loop 2 invariant s.maxBufLen > 1 && s.maxBufLen <= 1099511627776 && s.delim == '\n' && s.r != nil
+//@   loop 2 invariant !allocated_at_entry(ref(s.buf)) && off(s.buf) == 0
+//@   loop 2 invariant rd_len(s.r) == old(consumed_b(s)) + readOffset && rd_len(s.r) >= old(rd_len(s.r))
+//@   loop 2 invariant forall i in [0, readOffset) :: s.buf[i] == rd(s.r)[old(consumed_b(s)) + i]
+//@   loop 2 invariant forall i in [0, old(rd_len(s.r))) :: rd(s.r)[i] == old(rd(s.r))[i]
+//@   loop 2 invariant s.onError == old(s.onError) && s.r == old(s.r)
+//@   loop 2 invariant s.onError != nil ==> err_reports(s.onError) == old(err_reports(s.onError))
+//@   loop 2 invariant forall a: int :: forall i: int :: allocated_at_entry(a) ==> byteat(a, i) == old(byteat(a, i))
